@@ -195,6 +195,8 @@ class Unit:
         out.append('#line %d "%s"\n' % (self.p2_line, self.path))
         out.append(self.part2)
         out.append('#line 1 "generated-code"\n')
+        out.append('#ifndef VERIF_NEW\n/* new T: a fresh heap object; operator new never returns null (allocation failure is outside the model) */\n'
+                   '#define VERIF_NEW(T) ({ T *_p = (T *)malloc(sizeof(T)); __CPROVER_assume(_p != 0); _p; })\n#endif\n')
         for nm in sorted(getattr(L, 'array_reads', ())):
             out.append('#ifndef ARR_RD_%s\n#define ARR_RD_%s(a, i) ((a)[i])\n#endif\n' % (nm, nm))
         loops = []
@@ -307,6 +309,7 @@ class Unit:
         cb = ['cbmc', gb2, '--object-bits', p.opts.get('objbits', '12'), '--bounds-check', '--pointer-check', '--signed-overflow-check',
               '--conversion-check', '--div-by-zero-check', '--undefined-shift-check', '--json-ui', '--verbosity', '4']
         if p.opts.get('unsigned-overflow') == '1': cb.append('--unsigned-overflow-check')
+        if p.opts.get('conversion') == 'off': cb.remove('--conversion-check')       # implementation-defined narrowing is not UB; stated per proof
         if 'unwind' in p.opts: cb += ['--unwind', p.opts['unwind'], '--unwinding-assertions']
         if solver == 'cadical': cb += ['--sat-solver', 'cadical']
         elif solver == 'cvc5': cb.append('--cvc5')
